@@ -536,7 +536,7 @@ LEVEL_TEXT = ('Exploration by runtime monitoring: every TransmissionModel.path_i
               'and must be licensed; an independent loop implementation of chords, slant optical depth and the depth '
               'integral judges each execution to 1e-10, with metamorphic checks (bare/opaque bounds, transparent=bare, '
               'monotone under scaling). All kernels run under NUMBA_BOUNDSCHECK=1; the thorough tier repeats a slice '
-              'with the JIT disabled. Held = held on the recorded executions.')
+              'with the JIT disabled. Results the caller keeps and work arrays it re-uses are followed by an ownership ledger (vmon/own.py). Held = held on the recorded executions.')
 LEVEL_NOTE = ('Trusted: the reference loops in vmon/refmodel.py (self-tested on closed forms each run); chord conventions '
               'per path method as read from the pinned code; sigma per contribution is taken as given (decided by C03/C04/C19).')
 TECHNIQUE = 'call taps on path_integral/contribute + numba bounds-check sanitizer + independent transit-integral reference model'
